@@ -334,7 +334,15 @@ impl Gener {
         // some timestamp/TTL programs start with a scripted chain that random generation reaches too
         // rarely: keys whose newest generation carries a timestamp ahead of the wall clock and a short
         // TTL, left to expire, then a clean reopen, then automatically timestamped calls on those keys
-        let script_kind = if matches!(spec.focus, Focus::Ts | Focus::Ttl) && spec.cfg.ttl && rng.chance(1, 3) { 1 + rng.below(3) } else { 0 };
+        let script_kind = if matches!(spec.focus, Focus::Ts | Focus::Ttl) && spec.cfg.ttl && rng.chance(1, 3) {
+            1 + rng.below(3)
+        } else if spec.focus == Focus::Layout && spec.cfg.persistent && rng.chance(1, 4) {
+            // a value of several hundred blocks is written, made durable and retired again: its
+            // retirement markers span more than one marker-write chunk
+            9
+        } else {
+            0
+        };
         Gener { rng, keys, bad_keys, json_keys, counter_keys, seq: 0, big_budget: 2, script: Default::default(), script_kind }
     }
 
@@ -431,6 +439,23 @@ impl Gener {
     fn build_script(&mut self, spec: &ProgSpec, m: &Model) {
         let kind = std::mem::take(&mut self.script_kind);
         let now = m.now;
+        if kind == 9 {
+            let k = self.rng.pick(&self.keys).clone();
+            self.seq += 1;
+            let blocks = *self.rng.pick(&[257usize, 300, 513, 600]);
+            let v = values::make(Tag { key_id: self.key_id(&k), writer: 0, seq: self.seq }, blocks * 4096 - 2000);
+            self.script.push_back(Op::Insert { k: k.clone(), v, ts: Ts::None, bytes: self.rng.chance(1, 2) });
+            self.script.push_back(Op::Flush);
+            if self.rng.chance(1, 2) {
+                self.script.push_back(Op::Delete { k: k.clone(), ts: Ts::None });
+            } else {
+                let v = self.value(spec, &k);
+                self.script.push_back(Op::Insert { k: k.clone(), v, ts: Ts::None, bytes: false });
+            }
+            self.script.push_back(Op::Flush);
+            self.script.push_back(Op::Get { k, bytes: false });
+            return;
+        }
         let ahead = *self.rng.pick(&[3 * NS, 3600 * NS, 1u64 << 58]);
         let ks: Vec<Vec<u8>> = (0..3).map(|_| self.rng.pick(&self.keys).clone()).collect();
         for (i, k) in ks.iter().enumerate() {
@@ -724,7 +749,7 @@ impl<'a> Runner<'a> {
         let hits_before = self.store().stats().cache_hits;
         let (expected, effects) = predict(&self.model, op);
         INFLIGHT.lock().insert(std::thread::current().id(), (std::time::Instant::now(), op.brief(), self.replay_doc.clone()));
-        let actual = exec(self.store(), op);
+        let actual = crate::callwatch::watched(op.name(), || exec(self.store(), op));
         INFLIGHT.lock().remove(&std::thread::current().id());
         self.calls += 1;
         *self.stats.entry((op.name().to_string(), res, expected.class())).or_insert(0) += 1;
